@@ -30,4 +30,19 @@ def probeDomain : List (List CpOut × Bool × ValOut) :=
   (c.flatMap fun a => c.flatMap fun b => c.flatMap fun d => c.map fun e => [a, b, d, e]).flatMap fun cps =>
     [true, false].flatMap fun w => [ValOut.absent, .yes, .no, .raise].map fun v => (cps, w, v)
 
+/-! ### the watchdog's per-operation verdict on the probe's grid -/
+
+/-- the verdict of the model's `timeoutEvent` for an operation in phase `ph` that was created `e1` and entered its
+    phase `e2` microseconds ago (the clock shows 100) -/
+def wdRow (ph : Phase) (ex ra : Bool) (a b c : Option Nat) (e1 e2 : Nat) : Option Reason :=
+  let s : Sys := { now := 100, maxOp := a, starv := b, prog := c }
+  let cx : Ctx := { id := 1, prio := 0, phase := ph, phaseAt := 100 - e2, resAcq := ra, created := 100 - e1, exempt := ex }
+  (timeoutEvent s cx).map (·.2)
+
+def wdDomain : List (Phase × Bool × Bool × Option Nat × Option Nat × Option Nat × Nat × Nat) :=
+  let lims : List (Option Nat) := [none, some 0, some 5]
+  [Phase.g0, .g1, .s, .g2, .m].flatMap fun ph => [false, true].flatMap fun ex => [false, true].flatMap fun ra =>
+    lims.flatMap fun a => lims.flatMap fun b => lims.flatMap fun c =>
+      [5, 6].flatMap fun e1 => [5, 6].map fun e2 => (ph, ex, ra, a, b, c, e1, e2)
+
 end Operon.Coord
